@@ -276,8 +276,8 @@ class L1Runner(Runner):
         tasks = list(tasks)
         self.rec.on_remove(tasks)
         # behaves as the shipped runners do (serial.py / process.py remove_results)
-        import sched_h
-        sched_h._shipped_remove(self.results_map, tasks)
+        _shipped_remove(self.results_map, tasks)
+        self.rec.on_map(self.results_map)
 
     def get_task_infos(self):
         return []
@@ -345,6 +345,7 @@ class SpyRunner(Runner):
         tasks = list(tasks)
         self.rec.on_remove(tasks)
         self.inner.remove_results(tasks)
+        self.rec.on_map(self.inner.results_map)
 
     def get_task_infos(self):
         return self.inner.get_task_infos()
@@ -390,6 +391,9 @@ class Recorder:
         self.ev.append(('remove', order))
         if self.batches and self.batches[-1]:
             self.batches[-1][-1][1] = order
+
+    def on_map(self, results_map):
+        self.ev.append(('map', sorted(self.tid(t) for t in results_map)))
 
     def on_close(self, results_map):
         self.final_rmap = sorted(self.tid(t) for t in results_map)
